@@ -18,6 +18,7 @@ class Ctx:
         self.violations = []          # (signature, what, replay path)
         self.known_hits = {}          # signature -> what
         self.drift = []
+        self.extras = {}              # signature -> what (observations on routines OUTSIDE the property's statement: never a verdict)
         self.cov = dict(evaluations=0, distinct_nontrivial=0, rule="", samples=[], states=0, transitions=0,
                         traces_validated_against_impl=0)
         self.assumptions = []
@@ -74,6 +75,12 @@ class Ctx:
         self.drift.append(what)
         print("SPEC-DRIFT property=%s %s" % (self.pid, what), flush=True)
 
+    def extra(self, signature, what):
+        """a deviation observed on behaviour the specification covers but the listed property does not state: reported, exit code unaffected"""
+        if signature not in self.extras:
+            self.extras[signature] = what
+            print("EXTRA-FINDING (outside the statement of %s, not a verdict): %s [%s]" % (self.pid, what, signature), flush=True)
+
     def note(self, msg):
         print("[%s %6.1fs] %s" % (self.pid, time.time() - self.t0, msg), flush=True)
 
@@ -107,15 +114,22 @@ class Ctx:
             cov["known_findings_hit"] = sorted(self.known_hits)
         if self.drift:
             cov["spec_drift"] = self.drift
+        if self.extras:
+            cov["extra_findings_outside_property"] = [dict(signature=k, what=v) for k, v in sorted(self.extras.items())]
         if self.violations:
             cov["violation_signatures"] = [v[0] for v in self.violations]
         ev = dict(property_id=self.pid, tier=self.tier, seed=self.seed, level=self.level, coverage=cov,
                   assumptions=self.assumptions, wall_s=round(time.time() - self.t0, 2), violations=len(self.violations))
-        os.makedirs(EVID, exist_ok=True)
-        tmp = os.path.join(EVID, "%s.json.tmp%d" % (self.pid, os.getpid()))
+        evdir = EVID
+        scratch = os.environ.get("VERIF_REPO")
+        if scratch and os.path.realpath(scratch) != "/repo":
+            # a run against a scratch copy (mutant / candidate fix) must never overwrite the evidence of /repo itself
+            evdir = os.path.join(VERIF, ".build", "evidence-scratch")
+        os.makedirs(evdir, exist_ok=True)
+        tmp = os.path.join(evdir, "%s.json.tmp%d" % (self.pid, os.getpid()))
         with open(tmp, "w") as fh:
             json.dump(ev, fh, indent=1, default=str)
-        os.replace(tmp, os.path.join(EVID, "%s.json" % self.pid))
+        os.replace(tmp, os.path.join(evdir, "%s.json" % self.pid))
         if self.violations:
             print("%s: %d violation signature(s), %d evaluations, %.1fs" % (self.pid, len(self.violations), cov["evaluations"], ev["wall_s"]))
             return 1
